@@ -230,6 +230,9 @@ class Schema(dict, metaclass=LogicalMeta):
                 dep_field = self.__parser__.get_field(dep)
                 if not dep_field or (dep_field.name not in self and dep_field.attname not in self.__dict__):
                     # (an ordinary dependency is a key, a no_output one lives in __dict__ only)
+                    if field.name in self:
+                        # what it is calculated from is gone: the value calculated before does not stay
+                        super().__delitem__(field.name)
                     return
 
         try:
